@@ -543,7 +543,8 @@ def build_slice(rng, big=False):
             n.set_properties(capacities=f.Capacities(core=rng.choice([2, 4]), ram=rng.choice([8, 16]), disk=rng.choice([10, 100])),
                              image_ref='default_centos_8', image_type='qcow2')
         if rng.random() < 0.3:
-            n.set_properties(boot_script=rng.choice(['#!/bin/bash\necho "a<b && c>d"\n', 'echo ü\t\'q\'']))
+            n.set_properties(boot_script=rng.choice(['#!/bin/bash\necho "a<b && c>d"\n', 'echo ü\t\'q\'',
+                                                     '<?xml version="1.0"?>\n<graphml xmlns="x">', 'cat <<EOF\n{"directed": false, "nodes": [\nEOF']))
         nodes.append(n)
         for j in range(rng.choice([0, 1, 1, 2])):
             ct, model = rng.choice([(f.ComponentType.SharedNIC, 'ConnectX-6'), (f.ComponentType.SmartNIC, 'ConnectX-6'),
